@@ -909,6 +909,33 @@ func checkPadded(c padCase) ev.Outcome {
 		}
 		cur, curID = follow, next
 	}
+	// ShrinkToFit (the index uses it to skip subdivision steps): for the bound of the
+	// cell itself as rectangle - its sides lie exactly on boundary lines of its level -
+	// the result, taken from several ancestors, is the ancestor or a descendant of it
+	// and still contains every same-level edge neighbour inside that ancestor (their
+	// closed bounds touch the rectangle), as documented: "all descendants of this
+	// padded cell whose bounds intersect the given rect".
+	d := s2.CellID(c.ID)
+	rect := s2.CellFromCellID(d).BoundUV()
+	for al := level; al >= 0; al -= 1 + (level-al)/2 {
+		a := d.Parent(al)
+		r := s2.PaddedCellFromCellID(a, c.Padding).ShrinkToFit(rect)
+		if !r.IsValid() || !a.Contains(r) {
+			o.Err = fmt.Sprintf("PaddedCell(%v, %g).ShrinkToFit(bound of %v) = %v is not the cell or a descendant", a, c.Padding, d, r)
+			return o
+		}
+		if !r.Contains(d) {
+			o.Err = fmt.Sprintf("PaddedCell(%v, %g).ShrinkToFit(bound of %v) = %v does not contain %v itself", a, c.Padding, d, r, d)
+			return o
+		}
+		for _, nb := range d.EdgeNeighbors() {
+			if a.Contains(nb) && !r.Contains(nb) {
+				o.Err = fmt.Sprintf("PaddedCell(%v, %g).ShrinkToFit(bound of %v) = %v (level %d) excludes the edge neighbour %v, whose bound touches the rectangle", a, c.Padding, d, r, r.Level(), nb)
+				o.Finding = "shrinktofit-drops-neighbour"
+				return o
+			}
+		}
+	}
 	return o
 }
 
@@ -934,6 +961,6 @@ func init() {
 		Rule:  "random cell id; walk from the face cell along its child positions: at every level all four Children() are bit-identical (struct equality, incl. unexported orientation) to CellFromCellID(child id), ids match the bit layout, BoundUV of all four matches the lattice model, and for the followed child (all four at the last level) every exported accessor (BoundUV, VertexRaw, Vertex, EdgeRaw, Edge, Center, IJ/UVCoordOfEdge, SizeIJ/ST, IsLeaf) matches the lattice model decoded from the id bits; uv bounds within 2ε of the exact quadratic transform. Non-trivial = level ≥ 1.",
 		Quick: 5000, Thorough: 150000}, genID, checkChildren)
 	ev.Define("padded_cell", ev.Options{
-		Rule:  "random cell id and padding in [0,0.5]: down the path, PaddedCellFromParentIJ(parent, ChildIJ(pos)) equals PaddedCellFromCellID(child) on every accessor and both match the lattice model (Bound, Middle, Center, ChildIJ vs curve definition, Entry/ExitVertex = corner owned by the first/last leaf of the id range). Non-trivial = level ≥ 1.",
-		Quick: 20000, Thorough: 500000}, genPad, checkPadded)
+		Rule:  "random cell id and padding in [0,0.5]: down the path, PaddedCellFromParentIJ(parent, ChildIJ(pos)) equals PaddedCellFromCellID(child) on every accessor and both match the lattice model (Bound, Middle, Center, ChildIJ vs curve definition, Entry/ExitVertex = corner owned by the first/last leaf of the id range); ShrinkToFit of the cell's own bound from several ancestors keeps the cell and its same-level edge neighbours. Non-trivial = level ≥ 1.",
+		Quick: 40000, Thorough: 800000}, genPad, checkPadded)
 }
